@@ -16,7 +16,7 @@ package bitcoin
 //@   modifies ghost.txConfirmations
 //@   ensures err == nil ==> ghost.txConfirmations == result0 && result0 >= 1 && result0 <= ghost.btcLatestHeight + 1
 //@ assume func Chain.GetBlockHeader
-//@   ensures err == nil ==> result0 == @headerAt(recv, blockHeight)
+//@   ensures err == nil ==> result0 == @headerAt(recv, blockHeight) && result0 != nil
 
 // ---------------------------------------------------------------------------
 // C34: observations of the Bitcoin chain used by the main UTXO lookup and the
@@ -39,3 +39,51 @@ package bitcoin
 //@   ensures err == nil ==> (forall k int :: 0 <= k && k < len(result0) ==> result0[k] != nil && result0[k].Outpoint != nil)
 //@ func Transaction.Hash
 //@   pure
+
+// ---------------------------------------------------------------------------
+// C31 (consistency part): every piece of an assembled SPV proof is requested
+// for the same block height, the headers are consecutive starting at that
+// height and as many as required, and the proof fields are what was fetched.
+//@ ghost bufLen int
+//@ ghost bufWrites int
+//@ assume func bytes.Buffer.Write
+//@   modifies ghost.bufLen, ghost.bufWrites
+//@   ensures ghost.bufLen == old(ghost.bufLen) + len(arg0) && ghost.bufWrites == old(ghost.bufWrites) + 1
+//@ assume func bytes.Buffer.Bytes
+//@   ensures len(result) == ghost.bufLen
+//@ assume func BlockHeader.Serialize
+//@   ensures true
+//@ assume func Chain.GetTransactionMerkleProof
+//@   ensures err == nil ==> result0 != nil
+//@ assume func Chain.GetCoinbaseTxHash
+//@   ensures true
+
+//@ func getHeadersChain
+//@   property C31
+//@   arith math
+//@   opt noframe 1
+//@   modifies ghost.bufLen, ghost.bufWrites
+//@   ensures [one-header-of-eighty-bytes-per-required-confirmation] err == nil ==> ghost.bufWrites == old(ghost.bufWrites) + chainLength && ghost.bufLen == old(ghost.bufLen) + 80 * chainLength
+//@   assert call:Buffer.Write : [a-serialized-header-has-eighty-bytes] len(arg0) == 80
+//@   assert call:Chain.GetBlockHeader : [headers-are-consecutive-from-the-transaction-block] arg0 == i && blockHeight <= i && i < blockHeight + chainLength
+//@   loop 1 invariant i >= blockHeight && i <= blockHeight + chainLength && ghost.bufLen == old(ghost.bufLen) + 80 * (i - blockHeight) && ghost.bufWrites == old(ghost.bufWrites) + (i - blockHeight)
+
+//@ func createMerkleProof
+//@   property C31
+//@   opt noframe 1
+//@   requires txMerkleBranch != nil
+//@   modifies ghost.bufLen, ghost.bufWrites
+//@   ensures [one-entry-per-merkle-node] err == nil ==> ghost.bufWrites == old(ghost.bufWrites) + len(txMerkleBranch.MerkleNodes)
+//@   loop 1 invariant ghost.bufWrites == old(ghost.bufWrites) + rangeidx1
+
+//@ func AssembleSpvProof
+//@   property C31
+//@   arith math
+//@   opt noframe 1
+//@   modifies ghost.bufLen, ghost.bufWrites, ghost.btcLatestHeight, ghost.txConfirmations, alloc
+//@   assert call:getHeadersChain : [headers-start-at-the-transaction-block-and-cover-the-required-confirmations] arg1 == txBlockHeight && arg2 == requiredConfirmations && txBlockHeight == latestBlockHeight - confirmations + 1
+//@   assert call:Chain.GetTransactionMerkleProof@1 : [transaction-proof-is-for-the-transaction-block] arg0 == transactionHash && arg1 == txBlockHeight
+//@   assert call:Chain.GetCoinbaseTxHash : [coinbase-of-the-transaction-block] arg0 == txBlockHeight
+//@   assert call:Chain.GetTransactionMerkleProof@2 : [coinbase-proof-is-for-the-transaction-block] arg0 == coinbaseTxHash && arg1 == txBlockHeight
+//@   ensures [proof-is-returned-only-with-enough-confirmations-and-all-parts] err == nil ==> result0 != nil && result1 != nil
+//@   ensures [nothing-is-returned-on-error] err != nil ==> result0 == nil && result1 == nil
